@@ -77,6 +77,16 @@ def compute_wrong(a, fs, c):
     return wrong
 
 
+def recorded_on_disk(a, c, f):
+    """the file on disk still carries the recorded size and time-stamp (only then a change of its bytes is a SILENT one)"""
+    n2i = {nm.encode(): i for i, nm in enumerate(a.disk_names)}
+    try:
+        st = os.lstat(os.path.join(os.fsencode(a.ddir(n2i[c.disk_name(f.disk)])), f.sub))
+    except OSError:
+        return False
+    return st.st_size == f.size and st.st_mtime_ns == f.mtime_sec * 10**9 + max(f.mtime_nsec, 0)
+
+
 def run_case(case):
     seed, idx, tier = case
     rng = random.Random("c15-%d-%d" % (seed, idx))
@@ -104,11 +114,11 @@ def run_case(case):
                 hist.append(("scrub", p, T))
             elif kind < 0.8:
                 scen.mutate(fs, rng, rng.randint(2, 5), hostile=0.05, ops=["create", "create", "append"], maxblocks=6)
-                r = a.cmd("sync", variant=variant, shim={"time": T, "log": False})
-                hist.append(("sync-more", T))
+                r = a.cmd("sync", "-E", "-Z", variant=variant, shim={"time": T, "log": False})
+                hist.append(("sync-more", T, r.rc))
             else:
                 c = a.load_content()
-                tg = [(f, i) for f in c.files for i, b in enumerate(f.blocks) if b[1] == BLK]
+                tg = [(f, i) for f in c.files if recorded_on_disk(a, c, f) for i, b in enumerate(f.blocks) if b[1] == BLK]
                 for (f, i) in rng.sample(tg, min(len(tg), rng.randint(1, 3))):
                     if dmg.damage_file_block(a, c, f, i, rng, "byte") == "ok":
                         truly_bad.add(f.blocks[i][0])
@@ -119,7 +129,7 @@ def run_case(case):
             c = a.load_content()
             T += rng.randint(1, 20) * DAY
             for pos, ents in sorted(c.stripe_map().items()):
-                fe = [e for e in ents if e[1] == "file"]
+                fe = [e for e in ents if e[1] == "file" and e[4] == BLK and recorded_on_disk(a, c, e[2])]
                 if fe:
                     e = rng.choice(fe)
                     dmg.damage_file_block(a, c, e[2], e[3], rng, "byte")
@@ -144,6 +154,14 @@ def run_case(case):
                     fs.write(d, s, A.gen_bytes(rng, len(fs.entries[d][s][1]), "rand"), keep_inode=True)
                 elif k_ < 0.7:
                     # same content, new time-stamp: every hash still matches but the blocks count as unsynced
+                    # (a file the harness silently damaged before is left alone: re-timing it would turn the damage into a
+                    # change made by the user, which a later sync legitimately adopts)
+                    try:
+                        with open(fs.path(d, s), "rb") as fh_:
+                            if fh_.read() != fs.entries[d][s][1]:
+                                continue
+                    except OSError:
+                        continue
                     fs.set_mtime(d, s)
                     touched_pos.update(posof.get((a.disk_names[d].encode(), s), []))
                 else:
@@ -351,7 +369,7 @@ def main(tier, seed, replay, jobs, scale):
         import json
         cases = [tuple(json.load(open(replay))["replay"]["case"])]
     else:
-        n = int((150 if tier == "quick" else 1500) * scale)
+        n = int((450 if tier == "quick" else 1500) * scale)
         cases = [(seed, i, tier) for i in range(n)]
     results = list(par.run_cases(run_case, cases, jobs))
     par.absorb(run, results)
